@@ -442,7 +442,12 @@ pub enum XOp {
 	/// deliver `k` single messages between S and one peer (alternating directions, peer first), then cut the link
 	Interrupt { peer: u16, k: u8, reconnect: bool },
 	SnapshotS,
-	RestartS { snap: u16, landed: bool },
+	/// `fresh`: the manager is written right before the crash (otherwise the snap-th newest snapshot is used)
+	RestartS { snap: u16, landed: bool, #[serde(default)] fresh: bool },
+	/// R claims (or fails back) a claimable payment; messages are delivered until a removal (fulfil / fail) is
+	/// queued towards S, then `cut_at` more messages of the removal dance between S and that peer, then the
+	/// connection is cut (and re-established if `reconnect`): the removal is redelivered after reconnection
+	ResolveCut { pay: u16, claim: bool, cut_at: u8, reconnect: bool },
 	/// mine empty blocks (HTLC timeouts)
 	MineMany { blocks: u8 },
 }
@@ -461,6 +466,7 @@ pub struct XWeights {
 	pub interrupt: u32,
 	pub snapshot: u32,
 	pub restart: u32,
+	pub resolve_cut: u32,
 	pub mine_many: u32,
 }
 
@@ -481,7 +487,8 @@ pub fn xop_strategy(w: XWeights) -> BoxedStrategy<XOp> {
 		(w.async_s, (any::<u16>(), proptest::bool::weighted(0.7)).prop_map(|(chan, on)| XOp::AsyncS { chan, on }).boxed()),
 		(w.interrupt, (any::<u16>(), 0u8..9, any::<bool>()).prop_map(|(peer, k, reconnect)| XOp::Interrupt { peer, k, reconnect }).boxed()),
 		(w.snapshot, Just(XOp::SnapshotS).boxed()),
-		(w.restart, (prop_oneof![Just(0u16), 0u16..4, any::<u16>()], any::<bool>()).prop_map(|(snap, landed)| XOp::RestartS { snap, landed }).boxed()),
+		(w.restart, (prop_oneof![Just(0u16), 0u16..4, any::<u16>()], any::<bool>(), any::<bool>()).prop_map(|(snap, landed, fresh)| XOp::RestartS { snap, landed, fresh }).boxed()),
+		(w.resolve_cut, (any::<u16>(), proptest::bool::weighted(0.65), 0u8..8, proptest::bool::weighted(0.8)).prop_map(|(pay, claim, cut_at, reconnect)| XOp::ResolveCut { pay, claim, cut_at, reconnect }).boxed()),
 		(w.mine_many, prop_oneof![1u8..12, 10u8..90].prop_map(|blocks| XOp::MineMany { blocks }).boxed()),
 	];
 	v.retain(|(w, _)| *w > 0);
@@ -798,10 +805,68 @@ impl C03 {
 				self.snapshot(sim);
 				"snapshot"
 			},
-			XOp::RestartS { snap, landed } => {
-				if sim.snapshots[S].is_empty() {
+			XOp::ResolveCut { pay, claim, cut_at, reconnect } => {
+				let cands: Vec<usize> = sim.pays.iter().filter(|p| p.state == PayState::Claimable).map(|p| p.idx).collect();
+				if cands.is_empty() {
+					return Ok("resolve-cut-skipped");
+				}
+				let p = cands[pick(*pay, cands.len())];
+				if *claim {
+					sim.claim(p);
+				} else {
+					sim.fail_back(p);
+				}
+				let removal_queued = |sim: &Sim| -> Option<usize> { sim.links.iter().find(|(k, q)| k.1 == S && q.iter().any(|w| matches!(w, Wire::Fulfill(_) | Wire::Fail(_) | Wire::FailMalformed(_)))).map(|(k, _)| k.0) };
+				let mut peer = removal_queued(sim);
+				for _ in 0..80 {
+					if peer.is_some() {
+						break;
+					}
+					let live: Vec<(usize, usize)> = sim.links.iter().filter(|(k, q)| !q.is_empty() && sim.is_connected(k.0, k.1)).map(|(k, _)| *k).collect();
+					let mut progress = false;
+					for (f, t) in live {
+						if sim.deliver(f, t, 1) > 0 {
+							progress = true;
+						}
+						peer = removal_queued(sim);
+						if peer.is_some() {
+							break;
+						}
+					}
+					if peer.is_some() {
+						break;
+					}
+					for i in 1..n {
+						if sim.w.nodes[i].node.needs_pending_htlc_processing() {
+							sim.process_forwards(i);
+							progress = true;
+						}
+						if !sim.process_events(i).is_empty() {
+							progress = true;
+						}
+					}
+					peer = removal_queued(sim);
+					if !progress {
+						break;
+					}
+				}
+				let Some(p) = peer else { return Ok("resolve-no-removal") };
+				for _ in 0..*cut_at {
+					if sim.deliver(p, S, 1) == 0 && sim.deliver(S, p, 1) == 0 {
+						break;
+					}
+				}
+				sim.disconnect(S, p);
+				if *reconnect {
+					sim.reconnect(S, p);
+				}
+				"resolve-cut"
+			},
+			XOp::RestartS { snap, landed, fresh } => {
+				if sim.snapshots[S].is_empty() || *fresh {
 					self.snapshot(sim);
 				}
+				let snap = if *fresh { &0 } else { snap };
 				match sim.restart(S, *snap, *landed) {
 					Ok(()) => {
 						self.after_restart(sim);
@@ -1218,8 +1283,9 @@ impl C03 {
 					}
 				}
 				if matched == 0 {
-					self.label("path-failed-unmatched");
-					return Ok(());
+					// the HTLC never left S (failed out of the holding cell): S itself generated the failure
+					self.label("path-failed-before-htlc-left");
+					origins.insert(S);
 				}
 				let mut nodes = vec![S];
 				for h in path.hops.iter() {
@@ -1326,7 +1392,10 @@ impl C03 {
 			// (a) accounting: amount + fee reported = what the fulfilled HTLCs of the payment carried
 			if let (Some((Some(a), Some(f))), false) = (m.first_sent, m.predated) {
 				let reported = a + f;
-				let onchain_possible = path_closed || m.onchain_claim_step.is_some();
+				// with a channel closed anywhere a part can be lost after the recipient claimed (a dust HTLC on the
+				// closed channel): the forwarder fails it back and the event, documented to overstate in that case,
+				// still reports the whole payment
+				let onchain_possible = path_closed || m.onchain_claim_step.is_some() || self.any_chan_closed;
 				if !onchain_possible {
 					if reported != fulfilled_offchain {
 						return Err(fail(
